@@ -183,7 +183,7 @@ def job_uspmmcm(ckw, win, nout, margin, tag):
     replacing the module's `range` (first (16, 1025) call = multiplier list, later ones = CLKOUT0 divider list)."""
     stubs()
     import builtins as _b, math as _m
-    from migen import Signal
+    from migen import Signal, ClockDomain
     from litex.soc.cores.clock import xilinx_usp
     calls = [0]
     (m8, mw), (d8, dw8) = win["mult8"], win["div0_8"]
@@ -236,8 +236,10 @@ def job_uspmmcm(ckw, win, nout, margin, tag):
                 c.append(near(vco / d, f, slack, strict))
             return AND(*c)
         try:
+            for i in range(nout):
+                pll.create_clkout(ClockDomain("cd%d" % i), fs_[i], phase=0, margin=ctx.exact(margin))
             cfg = pll.compute_config()
-        except ValueError:
+        except (ValueError, AssertionError):
             ctx.event("refused")
             anyok = [spec(n, m, ds, -SL, True) for n in ns for m in ms for ds in itertools.product(*dlists)]
             return dict(refused_only_if_no_setting_in_window=NOT(OR(*anyok)))
@@ -416,8 +418,9 @@ def jobs(tier):
         ]
     for (modn, cls, ckw, win, nout, mg, tag) in X:
         js.append(Job("%s_%s" % (cls.lower(), tag), job_xilinx, dict(modname=modn, clsname=cls, ckw=ckw, win=win, nout=nout, margin=mg, tag=tag), cost=20 * nout * nout, timeout_s=7000))
+    js.append(Job("uspmmcm_low_1out", job_uspmmcm, dict(ckw=dict(speedgrade=-1), win=dict(divclk=(1, 2), mult8=(16, 3), div0_8=(16, 3), div=(1, 2)), nout=1, margin=1e-2, tag="low_1out"), cost=30, timeout_s=7000))
     if T:
-        js.append(Job("uspmmcm_low_1out", job_uspmmcm, dict(ckw=dict(speedgrade=-1), win=dict(divclk=(1, 2), mult8=(16, 3), div0_8=(16, 3), div=(1, 2)), nout=1, margin=1e-2, tag="low_1out"), cost=30, timeout_s=7000))
+        js.append(Job("uspmmcm_low2_1out", job_uspmmcm, dict(ckw=dict(speedgrade=-1), win=dict(divclk=(1, 2), mult8=(400, 3), div0_8=(16, 3), div=(1, 2)), nout=1, margin=1e-2, tag="low2_1out"), cost=30, timeout_s=7000))
         js.append(Job("uspmmcm_mid_2out", job_uspmmcm, dict(ckw=dict(speedgrade=-2), win=dict(divclk=(1, 2), mult8=(81, 2), div0_8=(40, 3), div=(4, 2)), nout=2, margin=1e-3, tag="mid_2out"), cost=100, timeout_s=7000))
     js.append(Job("ice40pll_low", job_ice40, dict(win=dict(divr=(0, 2), divf=(0, 3), divq=(1, 3)), margin=1e-2, tag="low"), cost=5))
     js.append(Job("ice40pll_high", job_ice40, dict(win=dict(divr=(14, 2), divf=(125, 3), divq=(4, 3)), margin=1e-2, tag="high"), cost=5))
